@@ -42,7 +42,13 @@ def instances(tier, seed):
         sp = dict(s, wtype='layer', w=[2, 8], a=[4, 8])
         out.append({'id': mpslib.prog_id(sp), 'spec': sp, 'wseed': seed})
     out.append({'id': mpslib.prog_id(dict(progs[0], w=[2, 8], a=[4, 8])) + ':gumbel', 'spec': dict(progs[0], wtype='layer', w=[2, 8], a=[4, 8], mps={'gumbel_softmax': True}), 'wseed': seed})
+    # clipping thresholds moved away from their initial values, as after training
+    sp = dict(progs[0], wtype='layer', w=[2, 8], a=[4, 8], clip=True)
+    out.append({'id': mpslib.prog_id(sp), 'spec': sp, 'wseed': seed})
     if tier == 'thorough':
+        for s in ({'fam': 'MA', 'clip': True}, {'fam': 'ML', 'bn': True, 'clip': True}):
+            sp = dict(s, wtype='layer', w=[2, 8], a=[4, 8])
+            out.append({'id': mpslib.prog_id(sp), 'spec': sp, 'wseed': seed})
         for s in ({'fam': 'MD', 'pool': 'max', 'HW': 5}, {'fam': 'MD', 'C': 3}, {'fam': 'MD', 'two_fc': True}, {'fam': 'MD', 'pool': 'avg', 'HW': 5, 'bn': True}):
             sp = dict(s, wtype='layer', w=[2, 8], a=[4, 8])
             out.append({'id': mpslib.prog_id(sp), 'spec': sp, 'wseed': seed})
